@@ -312,6 +312,25 @@ theorem suspend_templates_safe (c : Call) (s : IO) (h : Inv s) (hsz : s.io2 - s.
       rw [if_pos ⟨hlt, by have := h.2.1; omega⟩]
       exact ⟨⟨by simp; omega, by simpa using h.2.1, h.2.2⟩, rfl⟩
 
+/-- **A read suspension has consumed everything it was given** (the bounded-work core of the templates):
+from a well-formed reader, when a template answers `$short read` the reader is left at `iop = io2` with
+`io2` unmoved — so a caller that supplies at least one new byte per call sees at least one byte consumed
+per call, and a template that needs `k` bytes finishes within `k + 1` calls. -/
+theorem read_suspension_consumes_everything (c : Call) (s s' : IO) (sc : UInt64) (h : Inv s)
+    (hsz : s.io2 - s.iop < 2 ^ 64) (hr : run c s = .shortRead s' sc) :
+    s'.iop = s.io2 ∧ s'.io2 = s.io2 ∧ (s.iop < s.io2 → s.iop < s'.iop) := by
+  have h1 := (suspension_justified c s s' sc).1 hr
+  have h2 := suspend_templates_safe c s h hsz s' (by rw [hr]; rfl)
+  refine ⟨by rw [h1, h2.2], h2.2, fun hlt => ?_⟩
+  rw [h1, h2.2]
+  exact hlt
+
+/-- A write suspension leaves the writer untouched (nothing half-written). -/
+theorem write_suspension_changes_nothing (c : Call) (s s' : IO) (sc : UInt64)
+    (hr : run c s = .shortWrite s' sc) : s' = s ∧ s.iop = s.io2 := by
+  have := (suspension_justified c s s' sc).2 hr
+  exact ⟨this.2.1, by rw [← this.2.1]; exact this.1⟩
+
 /-- Non-vacuity: a state satisfying `Inv` on which `read_u32le?` really suspends after consuming the
 two available bytes, leaving the reader empty. -/
 example : Inv ⟨#[1, 2, 3], 1, 3, false, true⟩ ∧
